@@ -217,6 +217,22 @@ CLAIMS = {
    note=NOTE + "C13: Adam/ELBO/jit not modelled; optimisation-quality clauses are observations. FitMulti.find_MAP regrouping ignores prior.suffix (observation; the property's multi-source clause is un-suffixed).",
    technique="Lean 4 theorems (kernel-decided key sets over all configurations on a purge chain translated from source; string lemma for *_base; regroup partition) + structural correspondence with the real find_MAP + real-fit oracle",
    design="7/C13"),
+ "C15": dict(
+   text=("Proof for the link functions, ranges, relabelling and site structure: over ℝ the logistic restriction keeps every linked value inside [low, hi] for "
+         "every input (strictly inside for low < hi), a polynomially linked parameter with a range stays inside it for all coefficients and wavelengths, a "
+         "spline-linked value (row of non-negative weights summing to one applied to weights in [low, hi]) stays inside [low, hi]; the default-range rules "
+         "regenerated from multiband.py, in source order, give [0.65, 8] to exactly the Sersic indices, [0, 0.9] to the ellipticities, [0, 2π] to theta and "
+         "nothing to the other parameters (whole single-source table and multi-source names p_j, j ≤ 5, kernel-evaluated); relabelling with an empty old "
+         "suffix appends _band, is injective in the key and, on the parameter tables, (parameter, band) ↦ key is injective for the band names tried "
+         "(collision examples for bands beginning with a parameter tail are proved); site structure on concrete configurations: one shared latent per "
+         "constant parameter whatever the number of bands, one independent latent per (unlinked parameter, band), deterministic per-band values for linked "
+         "parameters, one likelihood site per band. Tie: real FitMultiBandPoly / FitMultiBandBSpline (2–6 bands, single and multi-source band fitters, "
+         "random partitions, orders 0–4, adversarial band names, coefficients ×50): site list of build_model() exact; linked values from the real link "
+         "latents vs the Lean polyLink / dot (float64 1e-9); default ranges; relabelled keys and unchanged distribution parameters; design-matrix rows "
+         "convex. Oracle: values inside range, constant parameters single-site, independent unlinked latents, joint = Σ site log-densities."),
+   note=NOTE + "C15: scipy design matrices and the prior-sample mean/scale enter as data; jnp.clip keyword shim for the spline constructor under the pinned JAX; the joint density per band is the C05 model with suffix _band.",
+   technique="Lean 4 theorems (logistic/convex-combination bounds, kernel-decided range and relabelling tables on regenerated rules, site lists) + multi-band trace correspondence + structural oracle",
+   design="7/C15"),
 }
 
 checks, na = [], []
